@@ -106,7 +106,12 @@ theorem encodeKey_inj {a b : Key} (ha : a ≠ []) (hb : b ≠ []) (h : encodeKey
   encodeKey_injective ha hb h
 
 /-- **Different states, different roots** — exactly as strong as the idealisation `H4Inj H4` of the node hash
-(stated as a hypothesis): if two canonical trees have the same root value, they hold the same state. -/
+(stated as a hypothesis): if two canonical trees have the same root value, they hold the same state.
+HONESTY NOTE: `H4Inj` is FALSE for the node hash the code uses (`h4 H`: `H` of the unframed concatenation, see
+`unframed_concatenation_ambiguous`), so this theorem is not a statement about SHA-256 alone. For ROOTS the gap is not known
+to be exploitable: a second state with the same root would need leaves whose key bytes and value hashes ARE the re-split
+bytes of some node's hash input, i.e. preimages of byte strings the adversary does not choose. For PROOFS it is exploitable,
+because proof nodes carry raw key/value bytes: C16 known finding `sibling-pair-resplit`. -/
 theorem root_injective {H4 : Bytes → Bytes → Bytes → Bytes → Bytes} (hH : H4Inj H4) {n : Nat} (hn : 0 < n)
     {t₁ t₂ : Trie} {S₁ S₂ : KMap} (h₁ : t₁.Rep n S₁) (h₂ : t₂.Rep n S₂)
     (hs₁ : S₁.HasSentinels n) (hs₂ : S₂.HasSentinels n)
@@ -195,6 +200,14 @@ example :
     (match stepTop ((empty 5).run ((borders 5).map fun x => Op.set x borderVal)) (.set b [9]) with
       | some t => ((borders 5).foldl (fun s x => delete x s) t).keys.contains b
       | none => true) = false := by decide
+
+/-! ### what a leaf commits to -/
+
+/-- **Tie to the source.** `valueOpToSMTNode` gives the leaf of every `set` the value `crypto.Hash(value)` (its only
+assignment to the leaf value) under the key `newNodeKey(crypto.Hash(key), keyBitLength)` — also when the value already is
+32 bytes long. The model's leaf value is `sha256 value` for every value (`Driver/Smt.lean: parseTok`), so the states
+`{k ↦ w}` and `{k ↦ sha256 w}` are different states with different leaves. -/
+theorem leaf_commits_to_hash_of_value : Gen.SmtFacts.leafCommitsToHashOfValue = true := by decide
 
 /-! ### `Store.Copy()` -/
 
